@@ -210,6 +210,15 @@ func runC13(tier string, seed uint64, o *Out) error {
 		o.Line("%s", l)
 	}
 	o.Count("sql_named_null_names_" + fmt.Sprint(nnames))
+	// (7) IS [NOT] NULL / LIKE inside a CASE that is the argument of an aggregate of a window query
+	gl, nscn, err := sqlAggCase(rng, tier)
+	if err != nil {
+		return err
+	}
+	for _, l := range gl {
+		o.Line("%s", l)
+	}
+	o.Count("sql_agg_case_windows_" + fmt.Sprint(nscn))
 	return nil
 }
 
@@ -758,5 +767,199 @@ func sqlNamedNullOne(name, other string) ([]string, error) {
 			}
 		}
 	}
+	return out, nil
+}
+
+// ---- (7) IS [NOT] NULL / LIKE inside a CASE that is the ARGUMENT of an aggregate (window query) ----
+//
+// GroupAggregator.Add evaluates the aggregate's argument expression on every row of the window; the
+// predicate must have its SQL meaning there too: a row WITHOUT the column is a NULL row, so
+// sum(CASE WHEN c IS NULL THEN 1 ELSE 0 END) counts it, and the IS NULL / IS NOT NULL sums partition
+// the N rows of a CountingWindow(N) (deterministic: the window fires on the N-th row).
+// Rows: the tested column present (text), explicit NULL, or ABSENT; bystander modes: "ki" the row
+// also has k (group key) and id, "k" only the group key, "i" no GROUP BY key, only id, "0" nothing
+// else at all (an absent row is the empty map).
+// Lines: C13 G <agg> <op> <hex name> <hex pat> <mode> <result> <row>...      row = A | N | P:<hex text>
+//        C13 GP <hex name> <mode> <nulls> <notnulls> <count(*)> <row>...
+func c13Num(v any, ok bool) string {
+	if !ok {
+		return "m" // key missing in the result
+	}
+	switch x := v.(type) {
+	case nil:
+		return "n"
+	case float64:
+		if x == float64(int64(x)) {
+			return fmt.Sprint(int64(x))
+		}
+	case int:
+		return fmt.Sprint(x)
+	case int64:
+		return fmt.Sprint(x)
+	}
+	return "e"
+}
+
+type c13AggScn struct {
+	name, pat, mode string
+	rows            []sqlRow
+}
+
+func sqlAggCase(rng *RNG, tier string) ([]string, int, error) {
+	texts := []string{"", "a", "ab", "ba", "a.b", "cd", "%", "axb", "NULL", "nil"}
+	pats := []string{"a%", "%b", "a%b", "%", "_b", "ab", "%a%"}
+	names := []string{"s", "x", "note", "is_null_flag", "nullable", "val"}
+	modes := []string{"ki", "k", "i", "0"}
+	fixed := [][]sqlRow{
+		{{"P", "ab"}, {"N", ""}, {"A", ""}, {"P", "cd"}},
+		{{"A", ""}},
+		{{"N", ""}},
+		{{"P", "a"}},
+		{{"A", ""}, {"A", ""}, {"N", ""}},
+		{{"A", ""}, {"P", "ab"}},
+		{{"P", ""}, {"A", ""}, {"N", ""}, {"P", "ab"}, {"A", ""}},
+		{{"P", "ab"}, {"P", "a.b"}, {"A", ""}},
+	}
+	var scns []c13AggScn
+	for i, rows := range fixed {
+		for _, m := range modes {
+			scns = append(scns, c13AggScn{names[i%2], pats[i%len(pats)], m, rows})
+		}
+	}
+	nrand := 16
+	if tier == "thorough" {
+		nrand = 200
+	}
+	grng := &RNG{s: rng.Next() ^ 0x633133616763617e}
+	for i := 0; i < nrand; i++ {
+		n := 1 + grng.Intn(6)
+		rows := make([]sqlRow, n)
+		for j := range rows {
+			switch k := grng.Intn(20); {
+			case k < 7:
+				rows[j] = sqlRow{"A", ""}
+			case k < 11:
+				rows[j] = sqlRow{"N", ""}
+			default:
+				rows[j] = sqlRow{"P", texts[grng.Intn(len(texts))]}
+			}
+		}
+		name := names[grng.Intn(len(names))]
+		if grng.Intn(3) == 0 {
+			name = c13NameCore[grng.Intn(len(c13NameCore))]
+		}
+		scns = append(scns, c13AggScn{name, pats[grng.Intn(len(pats))], modes[grng.Intn(len(modes))], rows})
+	}
+	var mu sync.Mutex
+	var wg sync.WaitGroup
+	sem := make(chan struct{}, 12)
+	res := make([][]string, len(scns))
+	var firstErr error
+	for i, sc := range scns {
+		i, sc := i, sc
+		wg.Add(1)
+		sem <- struct{}{}
+		go func() {
+			defer wg.Done()
+			defer func() { <-sem }()
+			ls, err := sqlAggCaseOne(sc)
+			mu.Lock()
+			res[i] = ls
+			if err != nil && firstErr == nil {
+				firstErr = err
+			}
+			mu.Unlock()
+		}()
+	}
+	wg.Wait()
+	if firstErr != nil {
+		return nil, 0, firstErr
+	}
+	var out []string
+	for _, ls := range res {
+		out = append(out, ls...)
+	}
+	return out, len(scns), nil
+}
+
+func sqlAggCaseOne(sc c13AggScn) ([]string, error) {
+	c := sc.name
+	flag := func(op string) string { return "CASE WHEN " + c + " " + op + " THEN 1 ELSE 0 END" }
+	type item struct{ agg, op, pat, alias, expr string }
+	items := []item{
+		{"sum", "isnull", "", "a1", "sum(" + flag("IS NULL") + ")"},
+		{"sum", "isnotnull", "", "a2", "sum(" + flag("IS NOT NULL") + ")"},
+		{"max", "isnull", "", "a3", "max(" + flag("IS NULL") + ")"},
+		{"min", "isnotnull", "", "a4", "min(" + flag("IS NOT NULL") + ")"},
+		{"max", "isnotnull", "", "a5", "max(" + flag("IS NOT NULL") + ")"},
+		{"min", "isnull", "", "a6", "min(" + flag("IS NULL") + ")"},
+		{"sum", "like", sc.pat, "a7", "sum(" + flag("LIKE '"+sc.pat+"'") + ")"},
+	}
+	grouped := sc.mode == "ki" || sc.mode == "k"
+	q := "SELECT "
+	if grouped {
+		q += "k, "
+	}
+	for _, it := range items {
+		q += it.expr + " AS " + it.alias + ", "
+	}
+	q += "count(*) AS cnt FROM stream GROUP BY "
+	if grouped {
+		q += "k, "
+	}
+	q += fmt.Sprintf("CountingWindow(%d)", len(sc.rows))
+	s := streamsql.New(streamsql.WithDiscardLog())
+	defer s.Stop()
+	if err := s.Execute(q); err != nil {
+		return nil, fmt.Errorf("aggcase %q: %v", q, err)
+	}
+	ch := make(chan []map[string]any, 8)
+	s.AddSink(func(rs []map[string]any) {
+		select {
+		case ch <- rs:
+		default:
+		}
+	})
+	rowToks := ""
+	for i, r := range sc.rows {
+		m := map[string]any{}
+		if grouped {
+			m["k"] = "g"
+		}
+		if sc.mode == "ki" || sc.mode == "i" {
+			m["id"] = i
+		}
+		switch r.pres {
+		case "P":
+			m[c] = r.text
+			rowToks += " P:" + hx(r.text)
+		case "N":
+			m[c] = nil
+			rowToks += " N"
+		default:
+			rowToks += " A"
+		}
+		s.Emit(m)
+	}
+	var got map[string]any
+	select {
+	case rs := <-ch:
+		if len(rs) == 1 {
+			got = rs[0]
+		}
+	case <-time.After(10 * time.Second):
+	}
+	val := func(alias string) string {
+		if got == nil {
+			return "t" // no (single) window result
+		}
+		v, ok := got[alias]
+		return c13Num(v, ok)
+	}
+	var out []string
+	for _, it := range items {
+		out = append(out, fmt.Sprintf("C13 G %s %s %s %s %s %s%s", it.agg, it.op, hx(c), hx(it.pat), sc.mode, val(it.alias), rowToks))
+	}
+	out = append(out, fmt.Sprintf("C13 GP %s %s %s %s %s%s", hx(c), sc.mode, val("a1"), val("a2"), val("cnt"), rowToks))
 	return out, nil
 }
